@@ -353,5 +353,6 @@ register("C15", {
     FaultFamily("backend-faults-threads", "threads", 22, 220),
     FaultFamily("native-exceptions-async-L2", "asyncio", 33, 330, seam="L2"),
     FaultFamily("native-exceptions-threads-L2", "threads", 22, 220, seam="L2"),
+    FaultFamily("native-exceptions-trio-L2", "trio", 22, 220, seam="L2"),
     CallerErrorFamily("C15", "caller-errors-async", 600, 6000),
     ProxyReplyFamily("C15", "proxy-replies-async", 1500, 30000)])
